@@ -33,6 +33,7 @@ struct client
 
 struct http_run
 {
+	std::int64_t boundaries = 0, stop_k = -1;
 	recorder& rec;
 	sim::default_config cfg;
 	std::unique_ptr<sim::simulation> sim;
@@ -195,8 +196,16 @@ struct http_run
 			c["reqs"] = cl;
 			rec.emit(c);
 		}
+		stop_k = geti(prog, "stop_k", -1);
 		sim->verif_step_hook = [this](int kind) {
 			if (kind != 1 && ++steps > 2000000 && !livelock) { livelock = true; rec.line("{\"e\":\"Livelock\"}"); throw livelock_error(); }
+			// stop() at an arbitrary boundary between two handler executions
+			if (kind != 1 && ++boundaries == stop_k && server)
+			{
+				std::int64_t t = rec.sync();
+				json::object e; e["e"] = "Stop"; e["t"] = t; e["k"] = stop_k; rec.emit(e);
+				server->stop();
+			}
 		};
 		for (auto const& cv : prog.at("clients").as_array())
 		{
@@ -298,6 +307,7 @@ int record_http(int argc, char** argv)
 		std::fflush(tf);
 		result res;
 		res.extra["events"] = rec.events - before;
+		res.extra["boundaries"] = r.boundaries;
 		if (r.livelock) res.fail(-1, "livelock", "step budget exceeded");
 		return res;
 	});
